@@ -446,8 +446,10 @@ Qed.
 
 Lemma estimate_key_fast_eq_lemma : forall M ns, estimate_key_fast M ns = estimate_key M ns.
 Proof.
-  intros M ns. unfold estimate_key_fast, estimate_key, estimate_key_idx. f_equal. f_equal.
-  apply argmax_by_ext. intros a b. unfold key_lt.
+  intros M ns. unfold estimate_key_fast, estimate_key, estimate_key_idx.
+  apply (f_equal (fun i => nth (Z.to_nat i) key_names "?"%string)).
+  apply (argmax_by_ext (key_lt M (ky_hist_tab ns)) (key_lt M (ky_hist ns)) (zrange 1 23) 0).
+  intros a b. unfold key_lt.
   rewrite (ky_cov_ext (ky_hist_tab ns) (ky_hist ns) (row_fn M a) (row_fn M a) (ky_hist_tab_eq ns) (fun _ _ => eq_refl)).
   rewrite (ky_cov_ext (ky_hist_tab ns) (ky_hist ns) (row_fn M b) (row_fn M b) (ky_hist_tab_eq ns) (fun _ _ => eq_refl)).
   reflexivity.
